@@ -279,7 +279,7 @@ pub fn check(case: &C04Case) -> CaseOutcome
 
 pub fn run(env: &Env, rec: &Recorder) -> (String, Vec<&'static str>)
 {
-    pbt(env, rec, "check-mode", env.cases(1200, 40_000), &strategy, &check);
+    pbt(env, rec, "check-mode", env.cases(2500, 40_000), &strategy, &check);
     (
         "modelled trees (1-4 files, decoys, directives) x configuration (macros, structured on/off/omitted, use_cache on/off/omitted, extensions) x lock (absent, valid, corrupt, empty, negative) x breakage (none, no files in scope, missing source dir, source dir is a file, invalid YAML, missing config) x extra entries (non-source files, symlinks to file and directory, empty dir, stale file in TMPDIR, file outside the project) x fault plan (none, SIGTERM/SIGINT at a generated operation, injected read-side I/O failure); 20 % of trees pre-edited so nothing is missing. Oracle: (1) snapshot of the whole sandbox (project, TMPDIR, cwd, outside) identical incl. mtime and inode; (2) the libc-level trace contains no mutating call on any path; (3) for a 4 % sample the same run under strace -f shows no mutating file system call either (validates the interposer's view). Non-trivial = distinct case with a missing reference, a non-default configuration point, a broken configuration or a fault plan".to_string(),
         vec!["the interposer sees libc-level calls of the dynamically linked build; a raw syscall() would bypass it (std and async-std use the libc wrappers)"],
